@@ -25,7 +25,9 @@ RULE += (
     "after-flush event must still fire under every option). A quarter of the programs use a batch priority "
     "derived from the items' content (undefined for an empty batch); one in twelve waits synchronously for a "
     "task already on the scheduler's stack; a third of the flushing programs get one more run in which the "
-    "options are switched on at the first scheduler flush instead of before the run."
+    "options are switched on at the first scheduler flush instead of before the run. In one program in five "
+    "every task's first argument prints with per-cent signs (names and dumps are built from repr() of the "
+    "arguments)."
 )
 ASSUMPTIONS = [
     "programs whose default-option trace is not reproducible (priority ties) are skipped and counted",
